@@ -187,6 +187,26 @@ def main():
     until_cmp = one(rf"{p_row}\.valid_until\.as_str\(\)\s*(>=|<=|>|<)\s*{p_at}\b", el, "the valid_until comparison in eligible")
     window_reasons = re.findall(rf'{p_row}\.valid_(?:from|until)\.as_str\(\)[^{{]*\{{\s*return\s+reject\(\s*"(\w+)"\s*\)', el)
     unstated_cmp = one(rf"{p_row}\.confidence\s*(>=|<=|>|<)\s*0\.0", el, "the unstated-confidence test in eligible")
+    # the lifecycle stage has no clock: the evaluation instant is read exactly twice in `eligible`
+    # (the two window comparisons), never before the first window comparison, and the only row
+    # columns read are the ones below (no `retracted_at`, `updated_at`, `superseded_by`, …)
+    at_uses = [m.start() for m in re.finditer(rf"(?<![\w.]){p_at}\b", el)]
+    first_window = re.search(rf"{p_row}\.valid_from", el)
+    if not first_window:
+        die("eligible: no valid_from test")
+    at_before_window = sum(1 for i in at_uses if i < first_window.start())
+    row_fields = sorted(set(re.findall(rf"\b{p_row}\.(\w+)", el)))
+    # every arm of the status match must be unguarded (`"x" => …`, never `"x" if … => …`)
+    status_match = re.search(rf"match\s+{p_row}\.status\.as_str\(\)\s*\{{", el)
+    if not status_match:
+        die("eligible: no `match row.status.as_str()`")
+    depth, j = 1, status_match.end()
+    while j < len(el) and depth:
+        depth += el[j] == "{"
+        depth -= el[j] == "}"
+        j += 1
+    status_body = el[status_match.end():j - 1]
+    guarded_arms = len(re.findall(r'("\w+"|_)\s+if\b', status_body))
 
     # aggregate: the two side filters, clamp bounds, fold seed
     ag = body_of(mod, r"fn\s+aggregate\s*\(", "fn aggregate")
@@ -236,6 +256,12 @@ def main():
     w(f"def windowReasons : List String := {lean_str_list(window_reasons)}")
     w(f'def unstatedWhenConfidence : String := "{unstated_cmp} 0"')
     w(f'def clampBounds : String × String := ("{clamp[0]}", "{clamp[1]}")')
+    w("/-- how often `eligible` reads the evaluation instant, and how often before the window stage -/")
+    w(f"def evaluationInstantReads : Nat × Nat := ({len(at_uses)}, {at_before_window})")
+    w("/-- guarded arms (`\"x\" if … =>`) in the status match of `eligible` -/")
+    w(f"def guardedStatusArms : Nat := {guarded_arms}")
+    w("/-- the row columns `eligible` reads -/")
+    w(f"def eligibleRowColumns : List String := {lean_str_list(row_fields)}")
     w("")
     w("-- facts the model and the theorems rely on (fail to check when the source drifts)")
     w("theorem gen_baseline_den_pos : 0 < baselineDen := by decide")
@@ -248,6 +274,7 @@ def main():
     w('theorem gen_classify_skeleton : classifyComparisons = [("support", ">=", "accept"), ("opposition", "<", "material"), ("opposition", ">=", "accept"), ("support", "<", "material"), ("support", ">=", "material"), ("opposition", ">=", "material")] ∧ classifyReturns = ["Insufficient", "Accepted", "Rejected", "Contested", "Uncertain"] := by decide')
     w('theorem gen_engaged : engagedTerms = ["support_groups>0", "opposition_groups>0", "!uncertain.is_empty()"] ∧ engagedOps = ["||", "||"] := by decide')
     w('theorem gen_eligible_skeleton : statusArms = [("active", ""), ("retracted", "retracted"), ("superseded", "superseded"), ("expired", "expired"), ("_", "invalid_schema")] ∧ notVisibleReason = "not_visible" ∧ validFromExcludedWhen = ">" ∧ validUntilExcludedWhen = "<=" ∧ windowReasons = ["outside_valid_time", "outside_valid_time"] ∧ unstatedWhenConfidence = "< 0" ∧ clampBounds = ("0.0", "1.0") := by decide')
+    w('theorem gen_lifecycle_stage_has_no_clock : evaluationInstantReads = (2, 0) ∧ guardedStatusArms = 0 ∧ eligibleRowColumns = ["_id", "asserted_by_key", "confidence", "evidence_ids", "mode", "stance", "state", "status", "valid_from", "valid_until"] := by decide')
     w("")
     w("end AndaVerif.Gen.BeliefPolicy")
     os.makedirs(gen, exist_ok=True)
